@@ -422,7 +422,7 @@ def run_vario(ctx, exe, ncase, found):
                 if msgs: break
         for sk, m_ in msgs:
             if sk == 'createReduce': key = 'createReduce:' + classify(p, 'value')
-            elif sk == 'per-variable': key = algo + ':' + classify(p, 'value') + ':per-variable'
+            elif sk == 'per-variable': key = algo + ':NA-value:per-variable'
             else: key = algo + ':' + classify(p, 'value') + ':' + sk.split(':')[1]      # vario:<kind>:pairs|C00|status
             ctx.violation(key, m_, rep); found[0] = True
 
@@ -509,7 +509,10 @@ def run_stats(ctx, exe, runner, ncase, found):
                         msgs.append(('dbStatisticsMono:per-variable', 'variable %d, statistic %d: %s on the full Db, %s on the Db reduced to the samples usable for that variable' % (iv, j, fl(x), fl(y))))
                         rep = dict(rep); rep['per_variable_reduced'] = sx_str(B.cases[t]); break
                 if msgs: break
-        for sk, m_ in msgs: ctx.violation('stats:' + classify(p, 'value') + ':' + sk, m_, rep); found[0] = True
+        for sk, m_ in msgs:
+            # the per-variable reduction only removes the samples where that variable is undefined: the kind is NA-value whatever the other masks
+            key = 'stats:NA-value:dbStatisticsMono' if sk.endswith(':per-variable') else 'stats:' + classify(p, 'value') + ':' + sk
+            ctx.violation(key, m_, rep); found[0] = True
         # correspondence with the Coq model (stat_mono / stat_multi on the same rows)
         mo = model[p['m'][0]]; mu = model[p['m'][1]]
         if mo and mo[0] == -999 or mu and mu[0] == -999: print('ERROR: model rejected a statistics case'); sys.exit(3)
@@ -798,7 +801,9 @@ def run_corpus(ctx, exe, found):
 # ----------------------------------------------------------------------------- main
 def run(ctx):
     build_lib(ctx); ctx.log('library built')
-    proofs_ok = coq_properties(ctx); ctx.log('theorems re-checked: %s' % ('ok' if proofs_ok else 'BROKEN'))
+    debug_partial = bool(os.environ.get('C05_ONLY') or os.environ.get('C05_SKIP_COQ'))    # debugging aids: such a run is never a verdict (exit 3)
+    if os.environ.get('C05_SKIP_COQ'): proofs_ok = True; ctx.log('theorems NOT re-checked (C05_SKIP_COQ)')
+    else: proofs_ok = coq_properties(ctx); ctx.log('theorems re-checked: %s' % ('ok' if proofs_ok else 'BROKEN'))
     runner = build_runner(ctx); exe = build_harness(ctx, 'C05'); ctx.log('runner and harness built')
     if runner is None or exe is None:
         print('ERROR: model runner or harness does not build'); sys.exit(3)
@@ -825,10 +830,20 @@ def run(ctx):
                        'each case is run on the Db with the masks and on the physically reduced Db (directly built and, for selections, through Db::createReduce); '
                        'distinct = distinct case text; non-trivial = at least one sample or target is actually removed')
     if not proofs_ok: proof_break_violation(ctx, found[0])
-    ctx.assumptions = ['selection columns hold 0/1 (the theorems on rank lists carry the premise sel_wf; its failure is theorem C05_ranks_reduce_refuted)',
-                       'the reduction theorems are stated on the models of C01 (kriging system), C06 (moving neighbourhood) and C12 (variogram pair loops), tied to the code by those checks\' correspondences',
+    ctx.assumptions = ['selection columns hold 0/1 (the theorems on rank lists carry the premise sel_wf; its failure is theorem C05_ranks_reduce_refuted, replayed as covmat:selection-NA)',
+                       'the reduction theorems are stated on the models of C01 (kriging system), C06 (moving neighbourhood) and C12 (variogram pair loops), tied to the code by those checks\' correspondences; '
+                       'the definition of the reduced kriging case (kreduce) is itself compared on every run with the case built by the implementation from the physically reduced Db',
                        'comparisons between the two runs of the implementation: |a-b| <= 1e-9 (scale + |b|)',
-                       'turning-bands simulations: only the replay (no model); nugget-free models (the nugget component draws one number per point)']
+                       'turning-bands simulations: only the replay (no model); nugget-free models (the nugget component draws one number per point)',
+                       'an undefined WEIGHT is documented by Db::getWeight as weight 1: checked as such (not as a masked sample); zero weights are checked against removal for the variogram and covariance estimators']
+    ctx.notes.append('not covered: grid variograms, Poisson / covariogram estimators with zero weights, block / Bayesian / image kriging, kriging with collocated variables, '
+                     'simulations other than turning bands, statistics on grids (dbStatisticsPerCell...), Optim covariance paths beyond evalCovMatrix*Optim; '
+                     'the simtub witness with an undefined data coordinate runs in the thorough tier only (one to two minutes)')
+
+def run_checked(ctx):
+    run(ctx)
+    if os.environ.get('C05_ONLY') or os.environ.get('C05_SKIP_COQ'):
+        ctx.finish(); print('ERROR: partial debugging run (C05_ONLY / C05_SKIP_COQ set): not a verdict', flush=True); sys.exit(3)
 
 if __name__ == '__main__':
-    main(run)
+    main(run_checked)
